@@ -542,20 +542,31 @@ class Program:
         T = {i for i, b in self.bodies.items()
              if b.kind in ("fn", "assoc_fn") and i not in known and b.crate in crates and not b.rec.get("impl_of")
              and not b.rec.get("no_mangle") and not str(b.rec.get("abi", "")).startswith("C")}
-        if not T:
+        # closures unknown to the rule tables whose lexical owner is a known function (new closures inside new helpers
+        # travel with the helper)
+        UC = {i for i, b in self.bodies.items() if b.kind == "closure" and i not in known and b.crate in crates}
+        if not T and not UC:
             return
         raw = {i: b.rec for i, b in self.bodies.items()}
         changed = {}
         for i, rec in raw.items():
-            if i in T:
+            if i in T or i in UC:
                 continue
             new, inl = I.inline_record(rec, raw.get, lambda d: d in T)
-            if inl:
+            new, proj = I.project_closure_calls(new, raw.get, lambda c: c in UC)
+            if inl or proj:
                 changed[i] = new
                 for h in inl:
                     self.inlined_into.setdefault(h, set()).add(i)
+                for c in proj:
+                    self.inlined_into.setdefault(c, set()).add(i)
         for i, rec in changed.items():
             self.bodies[i] = Body(rec, self)
+        for c in UC:
+            if c in self.inlined_into:
+                self.hidden[c] = self.bodies.pop(c)
+        if not T:
+            return
         # a transparent function that is no longer referenced anywhere is hidden from iteration
         refs = set()
         for i, b in self.bodies.items():
@@ -610,7 +621,7 @@ class Program:
         b = self.bodies.get(fid)
         for h in (b.rec.get("inlined", []) if b is not None else []):
             out += self._closures_of.get(h, [])
-        return out
+        return [c for c in out if c not in self.hidden]
 
     def promoted_of(self, fid):
         ids = [fid] + (self.bodies[fid].rec.get("inlined", []) if fid in self.bodies else [])
